@@ -205,7 +205,8 @@ func (o *binaryRX) Evaluate(tx plugintypes.TransactionState, value string) bool 
 			return false
 		}
 		for i, c := range match {
-			if i == 9 {
+			if i > 9 {
+				// TX.0-9: group 9 is the last capture slot
 				return true
 			}
 			tx.CaptureField(i, c)
